@@ -1,7 +1,9 @@
-(* C07 — analysis() is a pure function of its arguments (as far as the option store goes; the
-   rest of the analysis reading no other mutable global is validated by the fresh-interpreter probe). *)
+(* C07 — analysis() is a pure function of its arguments: the option store is history-free (model of
+   Config + regenerated prelude), and the package writes to no other process-level state (regenerated
+   syntactic inventory); that reads of the store and of SymPy's own caches do not leak is validated by
+   the fresh-interpreter probe. *)
 From Coq Require Import List String Bool.
-From OdeVerif Require Import Model.Config Gen.ConfigGen Proofs.ConfigP.
+From OdeVerif Require Import Model.Config Gen.ConfigGen Proofs.ConfigP Gen.StateGen Proofs.StateP.
 Import ListNotations.
 Open Scope string_scope.
 
@@ -48,3 +50,14 @@ Theorem c07_defaults :
    ("sim_time", "0.1"); ("max_step_size", "999.0"); ("integration_accuracy_abs", "1e-06"); ("integration_accuracy_rel", "1e-06")].
 Proof. reflexivity. Qed.
 Print Assumptions c07_defaults.
+
+(* the package's functions write to NO process-level state other than the option store (from the three
+   places the Config model describes), the verification hook's trace and plot_helper's memoised optional
+   imports, and no function has a mutable default argument - decided on the inventory REGENERATED from
+   odetoolbox/*.py on every run *)
+Theorem c07_no_hidden_state :
+  hidden_writes = [] /\ mutable_defaults = [] /\
+  (forall w, In w global_writes ->
+     snd (fst w) = "Config.config" \/ snd (fst w) = "__init__.py:_verif_trace" \/ fst (fst (fst w)) = "plot_helper.py").
+Proof. exact (conj (proj1 no_hidden_state) (conj (proj2 no_hidden_state) writes_classified)). Qed.
+Print Assumptions c07_no_hidden_state.
